@@ -200,7 +200,7 @@ def test_case(case, note):
             e1, e2 = A.err(x1, r1, tr1), A.err(x2, r2, tr2)
             ok, q = A.order_ok(e1, e2, p, floor)
             if np.isfinite(q):
-                margins.append(q - (p - 1.5))
+                margins.append(q - (p - max(1.5, 0.3 * p)))
             if not ok:
                 note.fail(f"{key}:{bn}", dict(e1=e1, e2=e2, q=q,
                                               scale=scale, floor=floor))
